@@ -24,16 +24,19 @@ class blockdims_from_blockshape__rank1:
     params = {"shape": "tup:int", "chunks": "tup:int"}
     result = "tup:seq"
 
+    # every integer size is in the domain: a negative size, and 0 on a non-empty axis, are refused (weakest precondition)
+    raises = {"ValueError": lambda shape, chunks: S.Or(S.item(chunks, 0) < 0,
+                                                       S.And(S.item(chunks, 0) == 0, S.item(shape, 0) != 0))}
+
     def requires(shape, chunks):
-        d, bd = S.item(shape, 0), S.item(chunks, 0)
-        return S.And(d >= 0, S.Or(bd > 0, d == 0))
+        return S.item(shape, 0) >= 0
 
     def ensures(result, shape, chunks):
         return uniform_axis(S.item(result, 0), S.item(shape, 0), S.item(chunks, 0))
 
     def domain(tier, rng):
         for d in range(0, 30 if tier == "quick" else 80):
-            for bd in range(0, 12 if tier == "quick" else 40):
+            for bd in range(-3, 12 if tier == "quick" else 40):
                 yield {"shape": (d,), "chunks": (bd,)}
 
 
@@ -42,8 +45,11 @@ class blockdims_from_blockshape__rank2:
     params = {"shape": "tup:int,int", "chunks": "tup:int,int"}
     result = "tup:seq,seq"
 
+    raises = {"ValueError": lambda shape, chunks: S.Or([S.Or(S.item(chunks, a) < 0, S.And(S.item(chunks, a) == 0, S.item(shape, a) != 0))
+                                                       for a in (0, 1)])}
+
     def requires(shape, chunks):
-        return S.And([S.And(S.item(shape, a) >= 0, S.Or(S.item(chunks, a) > 0, S.item(shape, a) == 0)) for a in (0, 1)])
+        return S.And([S.item(shape, a) >= 0 for a in (0, 1)])
 
     def ensures(result, shape, chunks):
         out = {}
@@ -54,9 +60,9 @@ class blockdims_from_blockshape__rank2:
 
     def domain(tier, rng):
         for d in range(0, 9):
-            for bd in range(0, 5):
+            for bd in range(-2, 5):
                 for d2 in (0, 1, 7):
-                    for bd2 in (1, 3):
+                    for bd2 in (-1, 0, 1, 3):
                         yield {"shape": (d, d2), "chunks": (bd, bd2)}
 
 
@@ -181,6 +187,11 @@ class normalize_chunks:
                         for lim in (8, 64, 1000):
                             yield {"chunks": cs, "shape": (s0, s1, s2), "limit": lim, "dtype": "i4", "previous_chunks": None}
         yield from _multi_auto_domain(tier, rng)
+        # sizes that are not block sizes: negative, fractional, 0 on a non-empty axis (refused: ValueError)
+        for c, sh in [((-2,), (5,)), (((-1, 6),), (5,)), (((6, -1),), (5,)), (((2.5, 2.5),), (5,)), ((0,), (5,)), ((0,), (0,)),
+                      (((2.0, 3.0),), (5,)), ((2, -3), (4, 6)), ((2, (3, -1, 4)), (4, 6)), (((1.5, 2.5), 3), (4, 6)),
+                      ((-1, 0), (4, 6)), ((-1, 0), (4, 0)), ((2.5,), (5,))]:
+            yield {"chunks": c, "shape": sh, "limit": 64, "dtype": "f8", "previous_chunks": None}
         # one auto axis with every non-uniform previous layout of a short axis and small limits (u1: bytes == elements)
         from contracts.slicing import chunkings as _ch
         for n, prev in _ch(10 if tier == "quick" else 13, zero=False):
@@ -243,7 +254,11 @@ def _expect_value_error(chunks, shape):
         return False
     if len(spec) != len(shape):
         return True
-    return any(isinstance(c, tuple) and sum(c) != s for c, s in zip(spec, shape))
+    if any(isinstance(c, tuple) and (sum(c) != s or any(x < 0 or x != int(x) for x in c)) for c, s in zip(spec, shape)):
+        return True
+    # a uniform size below -1, or 0 on a non-empty axis, or a fractional size
+    return any(isinstance(c, (int, float)) and not isinstance(c, bool) and (c < -1 or (c == 0 and s != 0) or c != int(c))
+               for c, s in zip(spec, shape))
 
 
 @contract("dask_array/_overlap.py::ensure_minimum_chunksize", props=["C19"])
@@ -291,9 +306,11 @@ class convert_int_chunk_rank1:
     params = {"shape": "tup:int", "chunks": "tup:int"}
     result = "tup:seq"
 
+    raises = {"ValueError": lambda shape, chunks: S.Or(S.item(chunks, 0) < 0,
+                                                       S.And(S.item(chunks, 0) == 0, S.item(shape, 0) != 0))}
+
     def requires(shape, chunks):
-        d, bd = S.item(shape, 0), S.item(chunks, 0)
-        return S.And(d >= 0, S.Or(bd > 0, d == 0))
+        return S.item(shape, 0) >= 0
 
     def ensures(result, shape, chunks):
         return uniform_axis(S.item(result, 0), S.item(shape, 0), S.item(chunks, 0))
@@ -304,8 +321,11 @@ class convert_int_chunk_rank2:
     params = {"shape": "tup:int,int", "chunks": "tup:int,int"}
     result = "tup:seq,seq"
 
+    raises = {"ValueError": lambda shape, chunks: S.Or([S.Or(S.item(chunks, a) < 0, S.And(S.item(chunks, a) == 0, S.item(shape, a) != 0))
+                                                       for a in (0, 1)])}
+
     def requires(shape, chunks):
-        return S.And([S.And(S.item(shape, a) >= 0, S.Or(S.item(chunks, a) > 0, S.item(shape, a) == 0)) for a in (0, 1)])
+        return S.And([S.item(shape, a) >= 0 for a in (0, 1)])
 
     def ensures(result, shape, chunks):
         out = {}
@@ -325,11 +345,13 @@ class normalize_chunks_ints_rank1:
     an empty axis is the single chunk (0,)"""
     params = {"chunks": "tup:int", "shape": "tup:int"}
     result = "tup:seq"
-    raises = {"ValueError": None}
+    # every integer is in the domain: sizes below -1, and 0 on a non-empty axis, are refused -- and nothing else is
+    raises = {"ValueError": lambda chunks, shape: S.Or(S.item(chunks, 0) < -1,
+                                                       S.And(S.item(chunks, 0) == 0, S.item(shape, 0) != 0))}
 
     def requires(chunks, shape):
         c, s = S.item(chunks, 0), S.item(shape, 0)
-        return S.And(s >= 0, S.Or(c >= 1, c == -1), S.Or(s >= 1, c != -1))
+        return S.And(s >= 0, S.Or(s >= 1, c != -1))
 
     def ensures(result, chunks, shape):
         c, s = S.item(chunks, 0), S.item(shape, 0)
@@ -340,7 +362,7 @@ class normalize_chunks_ints_rank1:
 
     def domain(tier, rng):
         for s in range(0, 25):
-            for c in [-1] + list(range(1, 9)):
+            for c in list(range(-3, 9)):
                 yield {"chunks": (c,), "shape": (s,)}
 
 
@@ -355,13 +377,14 @@ class normalize_chunks_ints_rank1_kw:
     (they only steer 'auto' entries): this is the form Rechunk.chunks calls"""
     params = {"chunks": "tup:int", "shape": "tup:int", "limit": "optint", "dtype": "abs:DType", "previous_chunks": "tup:seq"}
     result = "tup:seq"
-    raises = {}  # an accepted integer specification is never refused
+    raises = {"ValueError": lambda chunks, shape, limit, dtype, previous_chunks: S.Or(
+        S.item(chunks, 0) < -1, S.And(S.item(chunks, 0) == 0, S.item(shape, 0) != 0))}
     externals = {"np.dtype": _ext_npdtype}
     havoc = {"dtype and (not isinstance(dtype, np.dtype))": "bool"}
 
     def requires(chunks, shape, limit, dtype, previous_chunks):
         c, s = S.item(chunks, 0), S.item(shape, 0)
-        return S.And(s >= 0, S.Or(c >= 1, c == -1), S.Or(s >= 1, c != -1))
+        return S.And(s >= 0, S.Or(s >= 1, c != -1))
 
     def ensures(result, chunks, shape, limit, dtype, previous_chunks):
         c, s = S.item(chunks, 0), S.item(shape, 0)
@@ -393,16 +416,19 @@ def _explicit(spec, extra_params):
         havoc = {"dtype and (not isinstance(dtype, np.dtype))": "bool"} if extra_params else {}
 
         def requires(chunks, shape, **kw):
-            return S.And(S.item(shape, 0) >= 0, S.chunking(S.item(chunks, 0)))
+            # any tuple of integers: negative entries are in the domain (and must be refused)
+            return S.item(shape, 0) >= 0
 
         def ensures(result, chunks, shape, **kw):
             c = S.item(chunks, 0)
             return {"unchanged": S.seq_equal(S.item(result, 0), c),
                     "adds-up": S.ssum(S.item(result, 0)) == S.item(shape, 0),
-                    "non-empty": S.slen(S.item(result, 0)) >= 1}
+                    "non-empty": S.slen(S.item(result, 0)) >= 1,
+                    "non-negative": S.chunking(S.item(result, 0))}
 
         raises = {"ValueError": lambda chunks, shape, **kw: S.Or(S.slen(S.item(chunks, 0)) == 0,
-                                                                 S.ssum(S.item(chunks, 0)) != S.item(shape, 0))}
+                                                                 S.ssum(S.item(chunks, 0)) != S.item(shape, 0),
+                                                                 S.Not(S.chunking(S.item(chunks, 0))))}
 
         def call(fn, chunks, shape, **kw):
             return fn(chunks, shape, **kw)
@@ -416,6 +442,9 @@ def _explicit(spec, extra_params):
             for s in (0, 3):
                 yield dict({"chunks": ((),), "shape": (s,)}, **({} if not extra_params else {"limit": 64, "dtype": "f8",
                                                                                              "previous_chunks": ((s,),)}))
+            for c, s in (((-1, 6), 5), ((6, -1), 5), ((-2,), 5), ((-1, 1), 0), ((3, -3, 3), 3)):
+                yield dict({"chunks": (c,), "shape": (s,)}, **({} if not extra_params else {"limit": 64, "dtype": "f8",
+                                                                                           "previous_chunks": ((s,),)}))
 
     normalize_chunks_explicit_rank1.__name__ = "normalize_chunks_" + spec.replace("-", "_")
     return normalize_chunks_explicit_rank1
@@ -429,13 +458,14 @@ NE2 = _explicit("explicit-rank1-kw", {"limit": "optint", "dtype": "abs:DType", "
 class normalize_chunks_ints_rank2:
     params = {"chunks": "tup:int,int", "shape": "tup:int,int"}
     result = "tup:seq,seq"
-    raises = {"ValueError": None}
+    raises = {"ValueError": lambda chunks, shape: S.Or([S.Or(S.item(chunks, a) < -1, S.And(S.item(chunks, a) == 0, S.item(shape, a) != 0))
+                                                       for a in (0, 1)])}
 
     def requires(chunks, shape):
         pre = []
         for a in (0, 1):
             c, s = S.item(chunks, a), S.item(shape, a)
-            pre += [s >= 0, S.Or(c >= 1, c == -1), S.Or(s >= 1, c != -1)]
+            pre += [s >= 0, S.Or(s >= 1, c != -1)]
         return S.And(pre)
 
     def ensures(result, chunks, shape):
@@ -452,8 +482,8 @@ class normalize_chunks_ints_rank2:
     def domain(tier, rng):
         for s0 in (0, 1, 5, 12):
             for s1 in (0, 3, 7):
-                for c0 in (-1, 1, 2, 5):
-                    for c1 in (-1, 1, 3):
+                for c0 in (-2, -1, 0, 1, 2, 5):
+                    for c1 in (-3, -1, 0, 1, 3):
                         yield {"chunks": (c0, c1), "shape": (s0, s1)}
 
 
